@@ -217,7 +217,7 @@ def _show(
         allow_None=True,
     )
 
-    if markers:
+    if markers is not None and len(markers) > 0:
         objects.append({"objects": [MagpyMarkers(*markers)], **DEFAULT_ROW_COL_PARAMS})
 
     if backend == "auto":
